@@ -235,7 +235,13 @@ impl Envelope {
     pub fn uncompress_subject(&self) -> Result<Self> {
         if self.subject().is_compressed() {
             let subject = self.subject().uncompress()?;
-            Ok(self.replace_subject(subject))
+            // Keep the uncompressed envelope as the subject even when it is
+            // itself a node: `replace_subject` would merge this envelope's
+            // assertions into that node and change the digest.
+            match self.case() {
+                EnvelopeCase::Node { assertions, .. } => Ok(Self::new_with_unchecked_assertions(subject, assertions.clone())),
+                _ => Ok(subject),
+            }
         } else {
             Ok(self.clone())
         }
